@@ -287,7 +287,52 @@ def run(chk, repo, tier):
         chk.ob('C08-g', 'E5-refusal', key, 'operands untouched / refusal precedes effect', not bad,
                '; '.join(sorted(set(bad))) or 'no write to the plane or the incoming wavefront', f.loc())
 
+    # the table decides first: no other validation (pixel scales, shapes) may refuse a pair before it
+    for key in ('plane.Plane.multiply',):
+        f, paths, _ = analyse(repo, key, types={('sym', 'wavefront'): wf})
+        first_bad = []
+        n_paths = 0
+        for p in paths:
+            calls = []
+            for e in p.events:
+                if e.kind != 'call' or e.depth != 0:
+                    continue
+                ck = str(e.data.get('callee', ''))
+                if not repo.has_func(ck):
+                    continue
+                g = repo.func(ck)
+                if g.is_property or ck.endswith('.ptype') or ck.endswith('.shape') or ck.endswith('.pixelscale'):
+                    continue      # attribute reads
+                calls.append(ck)
+            if not calls:
+                continue
+            n_paths += 1
+            if calls[0] != 'plane._can_mul_ptype':
+                first_bad.append(f'{calls[0]} runs before the plane-type test [{p.status}]')
+        chk.ob('C08-g', 'D-dominance', key, 'the plane-type test precedes every other step that can refuse', not first_bad and n_paths > 0,
+               '; '.join(sorted(set(first_bad))[:3]) or f'{n_paths} path(s): _can_mul_ptype is the first call', f.loc())
+
     # ---------------------------------------------------------------- C08-h
+    # plane types are values (PType defines ==): identity comparisons break for equal copies
+    ident = []
+    n_cmp = 0
+    for fn in repo.all_functions():
+        for node in ast.walk(fn.node):
+            if not isinstance(node, ast.Compare):
+                continue
+            operands = [node.left] + list(node.comparators)
+            for op, l, r in zip(node.ops, operands, operands[1:]):
+                names = [dotted(x) or '' for x in (l, r)]
+                is_pt = [nm.split('.')[-1] in tables.PTYPES and (nm.startswith('lentil.') or nm.startswith('ptype.') or
+                                                                  fn.module.name == 'ptype') or nm.split('.')[-1].endswith('ptype')
+                         for nm in names]
+                none = [isinstance(x, ast.Constant) and x.value is None for x in (l, r)]
+                if any(is_pt) and not any(none):
+                    n_cmp += 1
+                    if isinstance(op, (ast.Is, ast.IsNot)):
+                        ident.append(f'{fn.key}: `{fn.module.segment(node)[:70]}` at {fn.loc(node)}')
+    chk.ob('C08-h', 'T-comparison', 'lentil', 'plane types are compared by value (== / in), never by identity', not ident,
+           '; '.join(ident[:3]) or f'{n_cmp} plane-type comparison(s), none by identity', '')
     pc = repo.cls('ptype.PType')
 
     def self_attrs(fn):
